@@ -9,8 +9,8 @@ if __name__ == "__main__":
     setup_repo_path()
     import gentie
     sys.exit(run_check(
-        "C01", lean_modules=["Pamiq.Props.C01", "Pamiq.Lemmas.ProtoCtl"],
-        required_theorems=["Pamiq.Proto.cedge_sound", "Pamiq.Proto.ack_quiescent", "Pamiq.Proto.ack_no_executing",
+        "C01", lean_modules=["Pamiq.Props.C01", "Pamiq.Lemmas.ProtoCtl", "Pamiq.Lemmas.ProtoBg"],
+        required_theorems=["Pamiq.Proto.cedge_sound", "Pamiq.Proto.bedge_sound", "Pamiq.Proto.ack_quiescent", "Pamiq.Proto.ack_no_executing",
                            "Pamiq.Proto.ack_no_callback_begins", "Pamiq.Proto.clock_frozen",
                            "Pamiq.Proto.paused_ends_only_by_resume_or_shutdown",
                            "Pamiq.Proto.ack_requires_all_observed", "Pamiq.Proto.reachable_inv"],
